@@ -60,7 +60,7 @@ def check(rep):
     import gbigsmiles
     from rdkit import Chem
 
-    coq = fw.coq_check("C02", ["SrcBond", "SrcDescr", "SrcToken", "SrcStochParse"])
+    coq = fw.coq_check("C02", ["SrcBond", "SrcDescr", "SrcToken", "SrcStochParse", "SrcMolParse"])
     quick = rep.tier == "quick"
     rnd = random.Random(rep.seed + 2)
     evaluations = 0
